@@ -436,7 +436,9 @@ pub fn run(tier: Tier, replay_file: Option<Value>) -> ! {
             ("to-file", "echo filed >out.txt; echo filed2 >>out.txt", 2),
             ("escapes", "echo -e 'a\\tb'", 1),
         ];
-        let strace_ok = std::process::Command::new("strace").arg("-V").output().map(|o| o.status.success()).unwrap_or(false);
+        // (absolute path: the traced shell gets a PATH with the helper directory only)
+        let strace_bin = ["/usr/bin/strace", "/bin/strace", "/usr/local/bin/strace"].iter().find(|p| std::path::Path::new(p).exists()).copied().unwrap_or("strace");
+        let strace_ok = std::process::Command::new(strace_bin).arg("-V").output().map(|o| o.status.success()).unwrap_or(false);
         if !strace_ok {
             rep.assumptions.push("strace is not available here: the one-write-per-echo-line observation was skipped".into());
         } else {
@@ -446,7 +448,7 @@ pub fn run(tier: Tier, replay_file: Option<Value>) -> ! {
                 let _ = std::fs::remove_dir_all(&dir);
                 let _ = std::fs::create_dir_all(&dir);
                 let trace = dir.join("trace.txt");
-                let out = std::process::Command::new("strace")
+                let out = std::process::Command::new(strace_bin)
                     .args(["-f", "-e", "trace=write", "-s", "200", "-o"])
                     .arg(&trace)
                     .arg(&brush)
@@ -459,7 +461,10 @@ pub fn run(tier: Tier, replay_file: Option<Value>) -> ! {
                     .stderr(std::process::Stdio::null())
                     .output();
                 rep.evaluations += 1;
-                let Ok(o) = out else { continue };
+                let Ok(o) = out else {
+                    rep.assumptions.push("strace could not be started: the one-write-per-echo-line observation was skipped".into());
+                    break;
+                };
                 let t = std::fs::read_to_string(&trace).unwrap_or_default();
                 if !o.status.success() && t.is_empty() {
                     rep.assumptions.push("strace could not trace the shell here (ptrace denied): the one-write-per-echo-line observation was skipped".into());
